@@ -854,6 +854,115 @@ def alias(case: int, dflt: int, target: int) -> bool:
     return done()
 
 
+def _cross_world():
+    U = lambda k: UUID(int=900 + k)  # noqa: E731
+    ir0, ir1 = gtirb.IR(uuid=U(0)), gtirb.IR(uuid=U(1))
+    m0 = gtirb.Module(name="m0", uuid=U(2), ir=ir0)
+    m1 = gtirb.Module(name="m1", uuid=U(3), ir=ir1)
+    s0 = gtirb.Section(name="s0", uuid=U(4), module=m0)
+    s1 = gtirb.Section(name="s1", uuid=U(5), module=m0)
+    s2 = gtirb.Section(name="s2", uuid=U(6), module=m1)
+    s3 = gtirb.Section(name="s3", uuid=U(7))
+    bi0 = gtirb.ByteInterval(size=8, uuid=U(8), section=s0)
+    bi1 = gtirb.ByteInterval(size=8, uuid=U(9))
+    b0 = gtirb.CodeBlock(size=1, uuid=U(10), byte_interval=bi0)
+    b1 = gtirb.DataBlock(size=1, uuid=U(11), byte_interval=bi1)
+    nb = gtirb.CodeBlock(size=1, uuid=U(12))
+    nbi = gtirb.ByteInterval(size=1, uuid=U(13))
+    sym = gtirb.Symbol("y", uuid=U(14))
+    d = dict(ir0=ir0, ir1=ir1, m0=m0, m1=m1, s0=s0, s1=s1, s2=s2, s3=s3, bi0=bi0, bi1=bi1, b0=b0, b1=b1, nb=nb, nbi=nbi, sym=sym)
+    return d
+
+
+# first operation: moves (or re-adds) a node that has a subtree below it, at every level, from the parent's and from the child's side
+CROSS_FIRST = [
+    ("s1.byte_intervals.add(bi0)", lambda d: d["s1"].byte_intervals.add(d["bi0"])),
+    ("s2.byte_intervals.add(bi0)", lambda d: d["s2"].byte_intervals.add(d["bi0"])),
+    ("s3.byte_intervals.add(bi0)", lambda d: d["s3"].byte_intervals.add(d["bi0"])),
+    ("s0.byte_intervals.add(bi0)", lambda d: d["s0"].byte_intervals.add(d["bi0"])),
+    ("bi0.section=s1", lambda d: setattr(d["bi0"], "section", d["s1"])),
+    ("bi0.section=s2", lambda d: setattr(d["bi0"], "section", d["s2"])),
+    ("bi0.section=s0", lambda d: setattr(d["bi0"], "section", d["s0"])),
+    ("bi0.section=None", lambda d: setattr(d["bi0"], "section", None)),
+    ("s1.byte_intervals|={bi0}", lambda d: _ior(d["s1"].byte_intervals, {d["bi0"]})),
+    ("s0.byte_intervals.update([bi0,bi1])", lambda d: d["s0"].byte_intervals.update([d["bi0"], d["bi1"]])),
+    ("bi1.section=s0", lambda d: setattr(d["bi1"], "section", d["s0"])),
+    ("m1.sections.add(s0)", lambda d: d["m1"].sections.add(d["s0"])),
+    ("m0.sections.add(s0)", lambda d: d["m0"].sections.add(d["s0"])),
+    ("s0.module=m1", lambda d: setattr(d["s0"], "module", d["m1"])),
+    ("s0.module=None", lambda d: setattr(d["s0"], "module", None)),
+    ("s3.module=m0", lambda d: setattr(d["s3"], "module", d["m0"])),
+    ("ir1.modules.append(m0)", lambda d: d["ir1"].modules.append(d["m0"])),
+    ("m0.ir=ir1", lambda d: setattr(d["m0"], "ir", d["ir1"])),
+    ("m0.ir=None", lambda d: setattr(d["m0"], "ir", None)),
+    ("b0.byte_interval=bi1", lambda d: setattr(d["b0"], "byte_interval", d["bi1"])),
+    ("bi1.blocks.add(b0)", lambda d: d["bi1"].blocks.add(d["b0"])),
+    ("bi0.blocks.add(b0)", lambda d: d["bi0"].blocks.add(d["b0"])),
+]
+# later operations: attach / detach BELOW (or at) the node that was moved
+CROSS_NEXT = [
+    ("bi0.blocks.add(nb)", lambda d: d["bi0"].blocks.add(d["nb"])),
+    ("nb.byte_interval=bi0", lambda d: setattr(d["nb"], "byte_interval", d["bi0"])),
+    ("bi0.blocks.discard(b0)", lambda d: d["bi0"].blocks.discard(d["b0"])),
+    ("b0.byte_interval=None", lambda d: setattr(d["b0"], "byte_interval", None)),
+    ("b0.byte_interval=bi1", lambda d: setattr(d["b0"], "byte_interval", d["bi1"])),
+    ("b0.byte_interval=bi0", lambda d: setattr(d["b0"], "byte_interval", d["bi0"])),
+    ("bi0.blocks.clear()", lambda d: d["bi0"].blocks.clear()),
+    ("bi1.blocks.add(nb)", lambda d: d["bi1"].blocks.add(d["nb"])),
+    ("s0.byte_intervals.add(nbi)", lambda d: d["s0"].byte_intervals.add(d["nbi"])),
+    ("nbi.section=s0", lambda d: setattr(d["nbi"], "section", d["s0"])),
+    ("bi0.section=None", lambda d: setattr(d["bi0"], "section", None)),
+    ("bi0.section=s3", lambda d: setattr(d["bi0"], "section", d["s3"])),
+    ("bi0.section=s0", lambda d: setattr(d["bi0"], "section", d["s0"])),
+    ("s0.byte_intervals.discard(bi0)", lambda d: d["s0"].byte_intervals.discard(d["bi0"])),
+    ("s1.byte_intervals.discard(bi0)", lambda d: d["s1"].byte_intervals.discard(d["bi0"])),
+    ("s0.module=None", lambda d: setattr(d["s0"], "module", None)),
+    ("s0.module=m0", lambda d: setattr(d["s0"], "module", d["m0"])),
+    ("m0.symbols.add(sym)", lambda d: d["m0"].symbols.add(d["sym"])),
+    ("m0.ir=None", lambda d: setattr(d["m0"], "ir", None)),
+    ("m0.ir=ir0", lambda d: setattr(d["m0"], "ir", d["ir0"])),
+]
+
+
+def run_cross(seq, which):
+    d = _cross_world()
+    pool = list(d.values())
+    irs = [d["ir0"], d["ir1"]]
+    names = []
+    for k, i in enumerate(seq):
+        name, f = (CROSS_FIRST if k == 0 else CROSS_NEXT)[i]
+        names.append(name)
+        try:
+            f(d)
+        except Exception as e:  # noqa: BLE001
+            return "undeclared %s in %s" % (type(e).__name__, name), names
+        why = check_cache(pool, irs) if which == "C03" else check_forest(pool)
+        if why is None and which != "C03":
+            why = check_cache(pool, irs)
+        if why:
+            return "after %s: %s" % (" ; ".join(names), why), names
+    return None, names
+
+
+def cross(o1: int, o2: int, o3: int) -> bool:
+    """
+    pre: 0 <= o1 < len(CROSS_FIRST) and 0 <= o2 < len(CROSS_NEXT) and 0 <= o3 < len(CROSS_NEXT)
+    post: __return__
+    """
+    # operations on DIFFERENT relations in sequence: a subtree is moved, then nodes are attached / detached below it
+    a = pick(o1, len(CROSS_FIRST))
+    b = pick(o2, len(CROSS_NEXT))
+    seq = [a, b]
+    if SHARD["k"] == 3:
+        seq.append(pick(o3, len(CROSS_NEXT)))
+    with untraced():
+        why, names = run_cross(seq, SHARD["which"])
+    if why is not None:
+        return fail(why)
+    count("scenarios")
+    return done()
+
+
 def extra_shards(which, tier):
     out = [{"fn": "twin", "consts": {"which": which}, "timeout": 600}]
     if tier == "quick":
@@ -886,6 +995,7 @@ def extra_shards(which, tier):
                 for lo in range(0, n, chunk):
                     out.append({"fn": "step2", "consts": {"rel": rel, "which": which, "third": third, "op_lo": lo, "nops1": min(chunk, n - lo), "nops": n},
                                 "timeout": 2400, "twin": "first", "cover": False})
+    out.append({"fn": "cross", "consts": {"which": which, "k": 2 if tier == "quick" else 3}, "timeout": 1800, "twin": False, "cover": False})
     if which == "C04":
         out.append({"fn": "alias", "consts": {}, "timeout": 600})
     return out
